@@ -190,7 +190,7 @@ func (in *Interp) newPath(sess *smt.Session, maxSteps int) *Path {
 		pcNegNames: map[string]bool{},
 		occ:        map[string]int{},
 		calls:      map[*ssa.Function]int{},
-		stubs:      map[string]*ssa.Function{},
+		stubs: map[string]Value{},
 		known:      map[string]*smt.Term{},
 		maxSteps:   maxSteps,
 		res:        &PathResult{Observed: map[string]string{}, choiceVals: map[string]int64{}},
